@@ -118,19 +118,20 @@ func findCommentBlockFolds(content string) []protocol.FoldingRange {
 
 	i := 0
 	for i < len(lines) {
-		line := strings.TrimSpace(lines[i])
-
-		if !strings.HasPrefix(line, ";") && !strings.HasPrefix(line, "#") {
+		if !isCommentLine(lines[i]) {
 			i++
 			continue
 		}
 
 		startLine := i
 		endLine := i
+		// Indented comment lines belong to the entry above them (a transaction's or a
+		// directive's own comments), top-level ones stand for themselves: a block never
+		// mixes the two, so it cannot reach from inside an entry's fold to outside of it.
+		indented := isIndentedLine(lines[i])
 
 		for j := i + 1; j < len(lines); j++ {
-			nextLine := strings.TrimSpace(lines[j])
-			if strings.HasPrefix(nextLine, ";") || strings.HasPrefix(nextLine, "#") {
+			if isCommentLine(lines[j]) && isIndentedLine(lines[j]) == indented {
 				endLine = j
 			} else {
 				break
@@ -149,4 +150,13 @@ func findCommentBlockFolds(content string) []protocol.FoldingRange {
 	}
 
 	return ranges
+}
+
+func isCommentLine(line string) bool {
+	trimmed := strings.TrimSpace(line)
+	return strings.HasPrefix(trimmed, ";") || strings.HasPrefix(trimmed, "#")
+}
+
+func isIndentedLine(line string) bool {
+	return strings.HasPrefix(line, " ") || strings.HasPrefix(line, "\t")
 }
